@@ -98,12 +98,19 @@ def paths_rules(rep, prog):
     f = need(prog, q)
     S = Sym(prog, inline=lambda g: g.module.name == "sempler.utils" and g.qname != q)
     run_function(S, f)
-    loops = [li for li in S.loopinfo.values() if li["func"] == q and "stack" in li["init"]]
+    def is_frame_list(v):
+        return v[0] == "list" and len(v[1]) == 1 and v[1][0][0] == "tuple" and len(v[1][0][1]) == 3
+    loops = [li for li in S.loopinfo.values() if li["func"] == q and li["test"] is not None and any(is_frame_list(v) for v in li["init"].values())]
     if not loops:
-        raise Inconclusive("semi_directed_paths: no worklist loop over a variable named like the stack found", f.node)
+        raise Inconclusive("semi_directed_paths: no work-list loop over (node, visited, frontier) frames found", f.node)
     li = loops[0]
     lid = [k for k, v in S.loopinfo.items() if v is li][0]
-    init = li["init"]["stack"]
+    STACK = [k for k, v in li["init"].items() if is_frame_list(v)][0]
+    outs = [k for k, v in li["init"].items() if v == ("list", ())]
+    if len(outs) != 1:
+        raise Inconclusive("semi_directed_paths: result list not identified", f.node)
+    PATHS = outs[0]
+    init = li["init"][STACK]
     succ_want = lambda a, b: a != signs.Z
     ok = False
     why = "initial frame not recognised"
@@ -135,8 +142,8 @@ def paths_rules(rep, prog):
     rep.check("PATHS.successors.table", ok, fwhere(f), "successor table = {i: {j | A[i, j] != 0}} for every node",
               "successor table is not `A[i, j] != 0` for all nodes: " + why)
     # exclusion of visited nodes and of the current node; frame layout
-    nxt = li["next"].get("stack")
-    mu = ("mu", lid, "stack")
+    nxt = li["next"].get(STACK)
+    mu = ("mu", lid, STACK)
     cur = ("sub", ("sub", mu, ("const", 0)), ("const", 0))
     vis = ("sub", ("sub", mu, ("const", 0)), ("const", 1))
     tov = ("sub", ("sub", mu, ("const", 0)), ("const", 2))
@@ -163,13 +170,13 @@ def paths_rules(rep, prog):
     rep.check("PATHS.step", ok, fwhere(f), "next frame = (popped node, visited + [current], successors - visited - {current})",
               "search step deviates: " + why)
     # a path is recorded exactly when the current node is the target
-    recs = [c for c in S.select("call", qname=q) if c.callkind == "method" and c.target == ".append" and c.recv == ("mu", lid, "paths")]
+    recs = [c for c in S.select("call", qname=q) if c.callkind == "method" and c.target == ".append" and c.recv == ("mu", lid, PATHS)]
     ok = len(recs) == 1 and recs[0].args == [("binop", "+", vis, ("list", (cur,)))] and \
         (("cmp", "==", cur, ("param", "to")), True) in recs[0].path
     rep.check("PATHS.record", ok, fwhere(f, recs[0].node if recs else None),
               "visited + [current] is recorded exactly under `current == to`", "paths are not recorded exactly when the target is reached")
     rets = S.select("return", qname=q)
-    rep.check("PATHS.return", len(rets) == 1 and rets[0].value == ("after", lid, "paths") and li["init"].get("paths") == ("list", ()),
+    rep.check("PATHS.return", len(rets) == 1 and rets[0].value == ("after", lid, PATHS) and li["init"].get(PATHS) == ("list", ()),
               fwhere(f), "returns the recorded paths, starting from []", "result is not the list of recorded paths")
 
 
